@@ -7,7 +7,7 @@ import (
 
 func init() {
 	props["C15"] = func(c *Ctx) {
-		c.Res.Rule = "include graphs: every graph on 3 files (each ordered pair incl. self-loops an $INCLUDE edge or not; 512 graphs, root = file 0; thorough: 4 files, 65536 graphs) with a distinct ATTRIBUTE per file so that the result shows the traversal; plus dictionary texts: arbitrary bytes, grammar-derived texts with injected faults, lines of 65535/65536/65537 bytes, CRLF, missing final newline. The real parser runs on an in-memory Opener that records every OpenFile/Close and caps the nesting depth at 64 (unbounded recursion is reported, not a stack overflow). Result (dictionary or error class, file, line) and the open/close trace are compared with the Coq model; direct checks: never a panic, depth cap never reached, every opened file closed, a cycle reachable from the root reported as RecursiveInclude. non-trivial = graph with at least one edge or text with at least one directive"
+		c.Res.Rule = "include graphs: every graph on 3 files (each ordered pair incl. self-loops an $INCLUDE edge or not; 512 graphs, root = file 0; thorough: 4 files, 65536 graphs) with a distinct ATTRIBUTE per file so that the result shows the traversal; include chains of 2..46 files (optionally closed into a cycle) with plain names, names sharing one base name across directories, and nested directories; plus dictionary texts: arbitrary bytes, grammar-derived texts with injected faults, lines of 65535/65536/65537 bytes, CRLF, missing final newline. The real parser runs on an in-memory Opener that records every OpenFile/Close and caps the nesting depth at 64 (unbounded recursion is reported, not a stack overflow). Result (dictionary or error class, file, line) and the open/close trace are compared with the Coq model; direct checks: never a panic, depth cap never reached, every opened file closed, a cycle reachable from the root reported as RecursiveInclude. non-trivial = graph with at least one edge or text with at least one directive"
 		r := c.Rng.Fork()
 		nf := 3
 		if c.Thorough() {
@@ -115,6 +115,54 @@ func init() {
 			c.Add(Case{Req: dc.req(), Impl: t.String(), Tag: tag, NoSpec: true})
 		}
 		c.Res.Exhaustive = true
+		// long chains (the number of nested includes is bounded by nothing but the number of files) and file names
+		// that differ only in their directory
+		for k := 0; k < c.N(60, 400); k++ {
+			depth := 2 + r.Intn(45)
+			back := -1 // index the last file includes again (a cycle), or none
+			if r.Intn(3) == 0 {
+				back = r.Intn(depth)
+			}
+			name := func(i int) string {
+				switch k % 3 {
+				case 0:
+					return fmt.Sprintf("c%d", i)
+				case 1:
+					return fmt.Sprintf("dir%d/dictionary", i) // one base name, many directories
+				}
+				return fmt.Sprintf("d/%d/dictionary.%d", i%2, i)
+			}
+			dc := &dictCase{rootName: name(0)}
+			for i := 0; i < depth; i++ {
+				text := fmt.Sprintf("ATTRIBUTE A%d %d string\n", i, i+1)
+				if i+1 < depth {
+					text += fmt.Sprintf("$INCLUDE %s\n", name(i+1))
+				} else if back >= 0 {
+					text += fmt.Sprintf("$INCLUDE %s\n", name(back))
+				}
+				if i == 0 {
+					dc.rootText = text
+				}
+				dc.files = append(dc.files, struct{ req, canon, text string }{name(i), name(i), text})
+			}
+			t, _, op, pan := runDictParse(dc)
+			gotCycle := len(t.parts) > 1 && t.parts[0] == "i1" && t.parts[1] == "i11"
+			gotOK := len(t.parts) > 0 && t.parts[0] == "i0"
+			what := fmt.Sprintf("chain of %d files %s .. %s, last file includes %d", depth, name(0), name(depth-1), back)
+			if pan || op.depth != 0 {
+				c.Fail("spec", "Parse", "chain", what, fmt.Sprint("panic=", pan, " open=", op.depth), "no panic, all closed", "")
+			}
+			if back < 0 && !gotOK {
+				c.Fail("spec", "Parse", "chain-oracle", what, t.String(), "accepted", "an acyclic include chain is accepted whatever its depth and whatever the files are called")
+			}
+			if back >= 0 {
+				want := fmt.Sprintf("b%x i%x", []byte(name(depth-1)), 2)
+				if !gotCycle || len(t.parts) < 4 || t.parts[2]+" "+t.parts[3] != want {
+					c.Fail("spec", "Parse", "chain-oracle", what, t.String(), "RecursiveIncludeError at "+want, "the cycle is reported at the $INCLUDE that closes it")
+				}
+			}
+			c.Add(Case{Req: dc.req(), Impl: t.String(), Tag: "chain", NoSpec: true})
+		}
 		// canonical name differs from the requested name; cycle detection uses the file's own name
 		for k := 0; k < c.N(50, 500); k++ {
 			dc := &dictCase{rootName: "root", rootText: "$INCLUDE a\n$INCLUDE b\n"}
@@ -228,7 +276,7 @@ func init() {
 		}
 		c.Trivial("graph-empty", "text-arbitrary")
 		c.Flush()
-		c.RequireTags("graph-acyclic", "graph-cycle", "graph-empty", "canonical-names", "error-position", "text-grammar", "text-grammar+ok", "text-long-line", "text-arbitrary")
+		c.RequireTags("chain", "graph-acyclic", "graph-cycle", "graph-empty", "canonical-names", "error-position", "text-grammar", "text-grammar+ok", "text-long-line", "text-arbitrary")
 	}
 }
 
